@@ -75,73 +75,95 @@ def _show(x) -> str:
     return repr(normalize(x))
 
 
+class _Vec:
+    """a vector of R^3 by components; `cross_of` = (a, b) when the object is the unevaluated VectorCross(a, b)"""
+
+    def __init__(self, comps: list, cross_of=None):
+        self.comps, self.cross_of = list(comps), cross_of
+
+
 def _r1_rules(run: Run, mod, cross_cls: ast.ClassDef) -> None:
+    """the operand hooks of VectorCross are EVALUATED for the four combinations (operand is / is not itself a cross product) on generic component vectors"""
+    from ..pyreader import PyReader, Raised
+
+    class R(PyReader):
+
+        def hook_attr(self, base, attr, n):
+            if isinstance(base, _Vec) and attr == "args" and base.cross_of is not None:
+                return list(base.cross_of)
+            return NotImplemented
+
+        def hook_unary(self, o, v, n):
+            if isinstance(v, _Vec) and isinstance(o, ast.USub):
+                return _Vec([op("neg", x) for x in v.comps])
+            return NotImplemented
+
+        def hook_binop(self, o, l, r, n):
+            lv, rv = isinstance(l, _Vec), isinstance(r, _Vec)
+            if not (lv or rv):
+                return NotImplemented
+            if isinstance(o, ast.Mult) and lv != rv:
+                s_, v_ = (r, l) if lv else (l, r)
+                return _Vec([op("mul", self.scalar(s_, n), x) for x in v_.comps])
+            if isinstance(o, ast.Div) and lv and not rv:
+                return _Vec([op("div", x, self.scalar(r, n)) for x in l.comps])
+            if isinstance(o, (ast.Add, ast.Sub)) and lv and rv:
+                return _Vec([op("add" if isinstance(o, ast.Add) else "sub", a_, b_) for a_, b_ in zip(l.comps, r.comps)])
+            self.fail(n, "vector arithmetic outside the decidable class")
+
+        def hook_call(self, n, env, fns):
+            name = (dotted(n.func) or "").split(".")[-1]
+            if name == "cls":
+                name = "VectorCross"
+            if name == "isinstance" and len(n.args) == 2:
+                v = self.ev(n.args[0], env, fns)
+                names = self.class_names(n.args[1])
+                if isinstance(v, _Vec) and names == ["VectorCross"]:
+                    return v.cross_of is not None
+                self.fail(n, "isinstance outside the modelled classes")
+            if name in ("VectorDot", "VectorCross", "VectorMixedProduct", "VectorNorm") and name not in self.functions:
+                vals = [self.ev(a, env, fns) for a in n.args]
+                if not all(isinstance(v, _Vec) for v in vals):
+                    self.fail(n, "product of non-vectors")
+                cs = [v.comps for v in vals]
+                if name == "VectorDot" and len(cs) == 2:
+                    return t_dot(*cs)
+                if name == "VectorCross" and len(cs) == 2:
+                    return _Vec(t_cross(*cs), cross_of=(vals[0], vals[1]))
+                if name == "VectorMixedProduct" and len(cs) == 3:
+                    return t_mixed(*cs)
+                if name == "VectorNorm" and len(cs) == 1:
+                    return t_norm(cs[0])
+                self.fail(n, "arity")
+            return NotImplemented
+
+    methods = ast.Module(body=[x for x in mod.tree.body if not isinstance(x, ast.ClassDef)] + [x for x in cross_cls.body if isinstance(x, ast.FunctionDef)], type_ignores=[])
     for mname, product, label in (("_eval_vector_dot", t_dot, "dot"), ("_eval_vector_cross", t_cross, "cross")):
         fn = _meth(cross_cls, mname)
-        flags = {}
-        branches = []
-        for s in fn.body:
-            if isinstance(s, ast.Assign) and len(s.targets) == 1 and isinstance(s.targets[0], ast.Name) and isinstance(s.value, ast.Call) \
-                    and dotted(s.value.func) == "isinstance" and dotted(s.value.args[1]) == "VectorCross" and dotted(s.value.args[0]) in ("lhs", "rhs"):
-                flags[s.targets[0].id] = dotted(s.value.args[0])
-            elif isinstance(s, ast.If):
-                branches.append(s)
-            elif isinstance(s, ast.Return):
-                branches.append(s)
-            elif isinstance(s, ast.Expr) and isinstance(s.value, ast.Constant):
-                continue
-            else:
-                raise AnalysisError(f"C14: {mname}: statement `{norm(s, 60)}` is outside the straight-line class")
-        if set(flags.values()) != {"lhs", "rhs"}:
-            raise AnalysisError(f"C14: {mname}: the lhs/rhs cross flags were not found")
         nrules = 0
         for lc, rc in itertools.product((True, False), repeat=2):
-            benv = {k: (lc if v == "lhs" else rc) for k, v in flags.items()}
-            benv.update({"lhs_is_cross_direct": lc, "rhs_is_cross_direct": rc})
-            taken = None
-            for b in branches:
-                if isinstance(b, ast.Return):
-                    taken = [b]
-                    break
-                if _eval_bool(b.test, benv):
-                    taken = b.body
-                    break
-            if taken is None:
-                continue
-            la, lb, ra, rb = gvec("a"), gvec("b"), gvec("c"), gvec("d")
-            L = t_cross(la, lb) if lc else gvec("L")
-            R = t_cross(ra, rb) if rc else gvec("R")
-            env = {"lhs": L, "rhs": R}
-            rd = VecReader(env, cls="VectorCross", where=f"VectorCross.{mname}[lhs_cross={lc},rhs_cross={rc}]")
-            rd.env["lhs.args"] = [la, lb] if lc else None
-            rd.env["rhs.args"] = [ra, rb] if rc else None
-            # allow `a, b = lhs.args`
-            body = []
-            for s in taken:
-                if isinstance(s, ast.Assign) and isinstance(s.value, ast.Attribute) and s.value.attr == "args" and dotted(s.value) in ("lhs.args", "rhs.args"):
-                    v = rd.env[dotted(s.value)]
-                    t = s.targets[0]
-                    if v is None or not (isinstance(t, ast.Tuple) and len(t.elts) == 2 and all(isinstance(e, ast.Name) for e in t.elts)):
-                        raise AnalysisError(f"C14: {mname}: `{norm(s)}` destructures the arguments of a non-cross operand")
-                    rd.env[t.elts[0].id], rd.env[t.elts[1].id] = v
-                else:
-                    body.append(s)
-            ret = [s for s in body if isinstance(s, ast.Return)]
-            if len(ret) != 1:
-                raise AnalysisError(f"C14: {mname}: branch without a single return")
-            if isinstance(ret[0].value, ast.Constant) and ret[0].value.value is None:
-                continue  # no rewrite for this pattern
-            got = rd.run(body)
-            want = product(L, R)
-            nrules += 1
+            A, B, C_, D = (_Vec(gvec(x)) for x in "abcd")
+            L = _Vec(t_cross(A.comps, B.comps), cross_of=(A, B)) if lc else _Vec(gvec("L"))
+            Rv = _Vec(t_cross(C_.comps, D.comps), cross_of=(C_, D)) if rc else _Vec(gvec("R"))
+            rd = R(methods, f"VectorCross.{mname}[lhs_cross={lc},rhs_cross={rc}]", depth_limit=8)
             pat = f"{label}({'cross(a, b)' if lc else 'L'}, {'cross(c, d)' if rc else 'R'})"
+            try:
+                got = rd.call(mname, ["CLS", L, Rv])
+            except Raised as r_:
+                run.ob("R1", f"{mname}:{pat}")
+                run.violate("R1", f"{MOD}:VectorCross.{mname}:{pat}", mod, fn, f"the operand hook raises {r_.exc} for {pat}")
+                continue
+            if got is None:
+                continue  # no rewrite for this pattern
+            want = product(L.comps, Rv.comps)
+            nrules += 1
             run.ob("R1", f"{mname}:{pat}")
-            if not _eq(got, want):
-                run.violate("R1", f"{MOD}:VectorCross.{mname}:{pat}", mod, ret[0],
-                            f"the rewrite of {pat} to `{norm(ret[0].value, 90)}` is not an identity in R^3 (differs from the component expansion of {pat})",
-                            replacement=norm(ret[0].value, 200))
+            gotv = got.comps if isinstance(got, _Vec) else got
+            if not _eq(gotv, want):
+                run.violate("R1", f"{MOD}:VectorCross.{mname}:{pat}", mod, fn,
+                            f"the rewrite of {pat} is not an identity in R^3 (differs from the component expansion of {pat})")
             else:
-                run.sample({"rule": pat, "replacement": norm(ret[0].value, 120), "identity": True})
+                run.sample({"rule": pat, "identity": True})
         if nrules < 3:
             raise AnalysisError(f"C14: only {nrules} rewrite rules found in {mname}")
 
